@@ -59,14 +59,15 @@ const maxEvs = 1 << 16
 const maxVals = 1 << 12
 
 type client struct {
-	id    int
-	task  *core.Task
-	prog  []Op
-	pc    int
-	inOp  bool
-	cur   Op
-	isEpi bool
-	isClo bool
+	curVal *Val
+	id     int
+	task   *core.Task
+	prog   []Op
+	pc     int
+	inOp   bool
+	cur    Op
+	isEpi  bool
+	isClo  bool
 }
 
 // Engine runs one plan.
@@ -102,6 +103,7 @@ type Engine struct {
 	keyHash    []uint64
 	keyConf    []uint64
 	pendingNew map[uint64]int // buffered new items per key hash (probes only)
+	pendQ      map[uint64][]*Val
 
 	joinWG *sync.WaitGroup
 
@@ -374,6 +376,7 @@ const (
 	evPolicyAdd     = 18
 	evPolicyReject  = 19
 	evPolicyFits    = 20
+	evGetsDropped   = 21
 )
 
 func hookEvent(kind int, key uint64, a, b int64) {
@@ -385,9 +388,27 @@ func hookEvent(kind int, key uint64, a, b int64) {
 		probe(PrSweep)
 	case evSweepEnd:
 		e.inSweep = false
+	case evGetsDropped:
+		probe(PrGetBatchDropped)
 	case evSetQueued:
 		if a == 0 && e.pendingNew != nil {
 			e.pendingNew[key]++
+			// remember which value this buffered insert carries (late-apply probe)
+			if t := e.sim.Self(); t != nil && t.Kind == core.KindClient {
+				if cl := e.clientOf(t); cl != nil && cl.curVal != nil {
+					e.pendQ[key] = append(e.pendQ[key], cl.curVal)
+				}
+			}
+		}
+	case evApplierNew:
+		if e.pendQ != nil {
+			if q := e.pendQ[key]; len(q) > 0 {
+				v := q[0]
+				e.pendQ[key] = q[1:]
+				if v.TTL > 0 && v.RetT != 0 && time.Now().UnixNano() > v.RetT+v.TTL {
+					probe(PrLateApply)
+				}
+			}
 		}
 	case evSetDropped:
 		if a == 0 {
@@ -402,6 +423,9 @@ func hookEvent(kind int, key uint64, a, b int64) {
 		case 0:
 			if e.pendingNew != nil {
 				e.pendingNew[key]--
+				if q := e.pendQ[key]; len(q) > 0 {
+					e.pendQ[key] = q[1:]
+				}
 			}
 			probe(PrClearDrainedNew)
 		case 1:
@@ -509,6 +533,7 @@ func (e *Engine) Run(plan *Plan, dec *core.Decider) *RunResult {
 	e.joinWG = new(sync.WaitGroup)
 	if !core.RaceEnabled {
 		e.pendingNew = map[uint64]int{}
+		e.pendQ = map[uint64][]*Val{}
 	}
 
 	for i, prog := range plan.Clients {
@@ -698,6 +723,9 @@ func (e *Engine) release(t *core.Task) {
 		notePair(e.lastSite, t.Site)
 	}
 	e.sim.Release(t, gate)
+	if t.State() == core.StRunning && (t.Site == ristretto.VerifSiteDelSend || t.Site == ristretto.VerifSiteWaitSend) {
+		probe(PrDelBlocked) // blocked on a full write buffer
+	}
 	e.lastOrd, e.lastSite = t.Ord, t.Site
 	workerProgress.Add(1)
 }
@@ -733,6 +761,15 @@ func (e *Engine) schedule(done func() bool, fair bool) string {
 		if e.closer != nil && e.closer.task.State() == core.StParked && e.closer.task.Site == SiteCloserGate && e.closerMayGo() {
 			if len(runnable) == 0 || e.othersDone() || e.dec.Prob(0.05, core.LFault) {
 				e.closing = true
+				for _, cl := range e.clients {
+					if cl.task.State() == core.StRunning {
+						probe(PrCloseWithWaiter)
+						break
+					}
+				}
+				if sn := e.api.Snapshot(); sn.SetBufLen > 0 {
+					probe(PrCloseWithBuffered)
+				}
 				e.release(e.closer.task)
 				continue
 			}
@@ -1057,6 +1094,7 @@ func (e *Engine) runOp(cl *client, oi int, op Op) {
 			v.FnC = 0
 		}
 		v.InvT = time.Now().UnixNano()
+		cl.curVal = v
 		inv := e.log(Ev{Kind: EvInvoke, Op: OpSet, Task: tk, OpIx: ix, Key: int32(op.Key), Val: int32(v.ID), A: op.Cost, B: op.TTL})
 		v.InvSeq = inv
 		wasClosed := e.closed
@@ -1180,6 +1218,11 @@ func (e *Engine) clearEnd(wasClosed bool) {
 	}
 	if n == 0 {
 		if e.clearDirty {
+			probe(PrDirtyClear)
+		} else {
+			probe(PrCleanClear)
+		}
+		if e.clearDirty {
 			e.epochValid = false
 			e.clearDirty = false
 		} else {
@@ -1273,4 +1316,19 @@ func (e *Engine) checkStrandedWaiters() {
 			}
 		}
 	}
+}
+
+func (e *Engine) clientOf(t *core.Task) *client {
+	for _, cl := range e.clients {
+		if cl.task == t {
+			return cl
+		}
+	}
+	if e.epi != nil && e.epi.task == t {
+		return e.epi
+	}
+	if e.closer != nil && e.closer.task == t {
+		return e.closer
+	}
+	return nil
 }
